@@ -24,12 +24,12 @@ def noMergeL : List Xml → Bool
   | k :: ks => noMergeT k && noMergeL ks
 end
 
-/-- the property children of a node (`<w:rPr>` below `<w:r>`, `<w:pPr>` below `<w:p>` …) hold nothing that merges
-(they may hold content tags: the `<w:tab>` elements of tab-stop definitions are content tags) -/
-def prCleanNode (e : Xml) : Bool :=
-  match e.tag? with
-  | some t => e.kids.all fun c => !(c.tag? == some ⟨t.ns, t.name ++ lit "Pr"⟩) || noMergeT c
-  | none => true
+/-- the local name ends in `Pr` -/
+def endsPr (s : Str) : Bool := s.reverse.take 2 == ['r', 'P']
+
+/-- the property children of a node (`<w:rPr>`, `<w:pPr>`, `<w:tcPr>`, `<w:numPr>` … : local name ending in `Pr`) hold
+nothing that merges (they may hold content tags: the `<w:tab>` elements of tab-stop definitions are content tags) -/
+def prCleanNode (e : Xml) : Bool := e.kids.all fun c => !endsPr c.localname || noMergeT c
 
 /-- one prefix per namespace: every node carries the prefixed tag of the first node with its tag -/
 def prefixOK (d : List Xml) : Bool :=
@@ -39,5 +39,9 @@ def prefixOK (d : List Xml) : Bool :=
 def goodTree (x : Xml) : Bool :=
   let d := descL [x]
   decide (d.filterMap Xml.id?).Nodup && prefixOK d && d.all prCleanNode
+
+/-- the prefix `w` is bound alike in every element of the tree (to the namespace the root binds it to) -/
+def sameWb (x : Xml) : Bool :=
+  (descL [x]).all fun e => e.nsmap.find? (fun b => b.1 == some (lit "w")) == x.nsmap.find? (fun b => b.1 == some (lit "w"))
 
 end D2P
